@@ -909,6 +909,32 @@ impl Database {
         }
     }
 
+    /// A root split gives the tree a new root page; the table file's header has to follow,
+    /// otherwise the next statement descends from the old root and sees only its subtree.
+    fn persist_table_root(
+        storage: &mut crate::storage::MmapStorage,
+        old_root: u32,
+        new_root: u32,
+    ) -> Result<()> {
+        if new_root != old_root {
+            let page0 = storage.page_mut(0)?;
+            crate::storage::TableFileHeader::from_bytes_mut(page0)?.set_root_page(new_root);
+        }
+        Ok(())
+    }
+
+    fn persist_index_root(
+        storage: &mut crate::storage::MmapStorage,
+        old_root: u32,
+        new_root: u32,
+    ) -> Result<()> {
+        if new_root != old_root {
+            let page0 = storage.page_mut(0)?;
+            crate::storage::IndexFileHeader::from_bytes_mut(page0)?.set_root_page(new_root);
+        }
+        Ok(())
+    }
+
     pub(crate) fn execute_update(
         &self,
         update: &crate::sql::ast::UpdateStmt<'_>,
@@ -1412,7 +1438,7 @@ impl Database {
                         let storage_arc = file_manager.table_data_mut(schema_name, table_name)?;
                         let mut storage_inner = storage_arc.write();
 
-                        with_btree_storage!(
+                        let new_root_page = with_btree_storage!(
                             wal_enabled,
                             &mut *storage_inner,
                             &self.shared.dirty_tracker,
@@ -1426,6 +1452,7 @@ impl Database {
                                 Ok::<_, eyre::Report>(())
                             }
                         );
+                        Self::persist_table_root(&mut storage_inner, root_page, new_root_page)?;
                         drop(storage_inner);
 
                         self.flush_wal_if_autocommit(
@@ -1792,6 +1819,9 @@ impl Database {
                         }
                     }
                 }
+
+                let new_index_root = index_btree.root_page();
+                Self::persist_index_root(&mut index_storage, index_root_page, new_index_root)?;
             }
         }
 
@@ -1857,6 +1887,9 @@ impl Database {
                         let _ = index_btree.insert(&key_buf, row_key);
                     }
                 }
+
+                let new_index_root = index_btree.root_page();
+                Self::persist_index_root(&mut index_storage, index_root_page, new_index_root)?;
             }
         }
 
@@ -1906,7 +1939,7 @@ impl Database {
         let storage_arc = file_manager.table_data_mut(schema_name, table_name)?;
         let mut storage = storage_arc.write();
 
-        with_btree_storage!(
+        let new_root_page = with_btree_storage!(
             wal_enabled,
             &mut *storage,
             &self.shared.dirty_tracker,
@@ -1927,6 +1960,7 @@ impl Database {
                 Ok::<_, eyre::Report>(())
             }
         );
+        Self::persist_table_root(&mut storage, root_page, new_root_page)?;
         drop(storage);
 
         let relevant_fk_refs: Vec<_> = child_table_schemas
@@ -2403,7 +2437,7 @@ impl Database {
         let storage_arc = file_manager.table_data_mut(schema_name, table_name)?;
         let mut storage = storage_arc.write();
 
-        with_btree_storage!(
+        let new_root_page = with_btree_storage!(
             wal_enabled,
             &mut *storage,
             &self.shared.dirty_tracker,
@@ -2423,6 +2457,8 @@ impl Database {
                 Ok::<_, eyre::Report>(())
             }
         );
+        Self::persist_table_root(&mut storage, root_page, new_root_page)?;
+        drop(storage);
 
         self.flush_wal_if_autocommit(file_manager, schema_name, table_name, table_id as u32)?;
 
